@@ -540,7 +540,11 @@ class World:
             xml = pyhf.writexml.writexml(spec, ref / sr, ref / dr, pf)
             with open(ref / f"{pf}.xml", "wb") as f:
                 f.write(xml)
-            return pyhf.readxml.parse(ref / f"{pf}.xml", Path(self.root))
+            # the library call is writexml; reading the product back is only how the two products are compared
+            try:
+                return pyhf.readxml.parse(ref / f"{pf}.xml", Path(self.root))
+            except Exception as e:
+                return {"__not_reimportable__": f"{type(e).__name__}: {str(e)[:200]}"}
         if cmd == "xml2json":
             from pathlib import Path
 
@@ -663,6 +667,12 @@ class World:
         refv = json.loads(json.dumps(ref[1]))
         got_file = got_stdout = None
         try:
+            if cmd == "json2xml" and isinstance(refv, dict) and "__not_reimportable__" in refv:
+                # writexml itself succeeded on this document but what it wrote cannot be parsed back (an export/import
+                # question, property C18): nothing to compare the CLI's product with
+                ctx.probe("json2xml_reference_not_reimportable")
+                self.products.add(op["outdir"])
+                return "exit0:ref_not_reimportable"
             if cmd == "json2xml":
                 from pathlib import Path
 
